@@ -215,13 +215,15 @@ class ModuleValue(ModuleMixin, TreeValue):
         if options[0] in first_few_lines or options[1] in first_few_lines:
             # It is a namespace, now try to find the rest of the
             # modules on sys_path or whatever the search_path is.
-            paths = set()
+            # Keep the order of the sys path (and not the one of a set), it
+            # decides which portion wins if a module exists in two of them.
+            paths = []
             for s in self.inference_state.get_sys_path():
                 other = os.path.join(s, self.name.string_name)
-                if os.path.isdir(other):
-                    paths.add(other)
+                if os.path.isdir(other) and other not in paths:
+                    paths.append(other)
             if paths:
-                return list(paths)
+                return paths
             # Nested namespace packages will not be supported. Nobody ever
             # asked for it and in Python 3 they are there without using all the
             # crap above.
